@@ -2,6 +2,7 @@ package main
 
 import (
 	"fmt"
+	"go/token"
 	"go/types"
 	"os"
 	"sort"
@@ -729,6 +730,8 @@ func init() {
 		// position lists of unaligned tables hold arbitrary offsets
 		checkAlignFree(p, r)
 		checkObjListWhole(p, r)
+		checkObjCountAgree(p, r)
+		checkObjIndexEveryBlock(p, r)
 		// an open RefsFor iterator is not disturbed by later lookups through the same reader or view
 		copyStateless(p, r, "REFSFOR-STATELESS", "a RefsFor result can depend on other lookups through the same Reader or Merged")
 		// nil contracts on the RefsFor paths
@@ -751,4 +754,252 @@ func init() {
 		r.NotDecided = []string{"exactness of the result set for given data", "object-index contents and prefix-length arithmetic", "name order of the merged result"}
 		r.Assumptions = []string{"bytes.Compare/Equal are pure", "the block iterator fills the record passed to it and nothing else"}
 	}
+}
+
+// OBJ-COUNT-AGREE (C11, C14): an object record carries the number of its
+// positions either in the three value-type bits next to the key (1..7) or, when
+// those bits are 0, in a varint in front of the positions.  The writer takes the
+// bits from valType() and the body from encode(): on every successful path of
+// encode, the count varint is written exactly when valType() returns 0 for a
+// record compatible with that path (decided over the order atoms of the two
+// paths).  A disagreement makes the reader misparse the record and the rest of
+// the object block, so RefsFor fails or misses refs.
+func checkObjCountAgree(p *Program, r *Report) {
+	enc := p.MustFunc("(*objRecord).encode")
+	vt := p.MustFunc("(*objRecord).valType")
+	cfg := &simCfg{Event: map[string]bool{"putVarInt": true}, Keep: map[string]bool{"putVarInt": true}, NoInlineDefault: true, NoLoopSamples: true}
+	ce, _ := runSim(p, enc, cfg, nil)
+	recv := mk("param", funcKey(enc)+"."+enc.Params[0].Name(), enc.Params[0].Type())
+	cv, _ := runSim(p, vt, &simCfg{NoInlineDefault: true, NoLoopSamples: true}, []*Term{recv})
+	n := 0
+	bad := ""
+	var w []string
+	for _, s := range ce.Samples {
+		if s.Kind != "ret" || s.Panic || len(s.Vals) != 2 || s.Vals[1] != tTrue {
+			continue
+		}
+		// is the first varint written on this path the number of positions?
+		wroteCount := false
+		for _, e := range s.Events {
+			if e.Op == "ev" && e.Aux == "putVarInt" {
+				v := e.Args[1]
+				wroteCount = v.containsOp("len") && !v.containsOp("elem") && !v.containsOp("index")
+				break
+			}
+		}
+		for _, v := range cv.Samples {
+			if v.Kind != "ret" || v.Panic || len(v.Vals) != 1 {
+				continue
+			}
+			// compatible: the facts of the valType path do not contradict the encode path
+			var conj []*Formula
+			for _, k := range sortedFactKeys(v.St) {
+				a := fAtom(v.St.fterm[k])
+				if !v.St.facts[k] {
+					a = fNot(a)
+				}
+				conj = append(conj, a)
+			}
+			if len(conj) > 0 {
+				if contra, _ := implied(s.St, fNot(fAnd(conj...))); contra {
+					continue
+				}
+			}
+			n++
+			isZero := v.Vals[0].isConst() && v.Vals[0].Aux == "0"
+			if wroteCount != isZero {
+				bad = fmt.Sprintf("encode %s the count varint on a path for which valType() returns %s", map[bool]string{true: "writes", false: "omits"}[wroteCount], v.Vals[0])
+				w = witnessOf(p, s.St.trace)
+			}
+		}
+	}
+	key := "objRecord / the count is written as a varint exactly when the value-type bits are 0"
+	if bad != "" {
+		r.violate("OBJ-COUNT-AGREE", key, p.pos(enc.Pos()), "the value-type bits and the body of an object record disagree about where the number of positions is stored ("+bad+"): the reader misparses the record and what follows it in the object block", w)
+	} else {
+		r.ok("OBJ-COUNT-AGREE", key, fmt.Sprintf("%d compatible (encode path, valType path) pairs agree", n))
+	}
+	r.floor("OBJ-COUNT-AGREE", n, 3, "compatible pairs of encode and valType paths of the object record")
+}
+
+// OBJ-INDEX-EVERY-BLOCK (C11, C14): the object index must list, for an object
+// id, every ref block that holds a ref to it.  The writer records the current
+// block position under the id for every such ref; the only reasons not to
+// append are: object indexing is switched off, there is no id, or the id's list
+// already ends with this very block position.  Decided on the control-flow
+// graph of the function that updates the id -> positions map: every path from
+// its entry to a return that does not pass the map update takes, in the right
+// direction, a branch on one of these three conditions.
+func checkObjIndexEveryBlock(p *Program, r *Report) {
+	wT := p.namedType("Writer")
+	n := 0
+	for _, f := range p.Funcs {
+		if f.Parent() != nil || !recvIsT(f, wT) {
+			continue
+		}
+		// the map update: m[k] = append(..) on a map[string][]uint64 field of the writer
+		var upd *ssa.MapUpdate
+		for _, b := range f.Blocks {
+			for _, ins := range b.Instrs {
+				mu, ok := ins.(*ssa.MapUpdate)
+				if !ok {
+					continue
+				}
+				mt, ok := mu.Map.Type().Underlying().(*types.Map)
+				if !ok {
+					continue
+				}
+				if sl, ok := mt.Elem().Underlying().(*types.Slice); ok {
+					if bt, ok := sl.Elem().Underlying().(*types.Basic); ok && bt.Kind() == types.Uint64 {
+						upd = mu
+					}
+				}
+			}
+		}
+		if upd == nil {
+			continue
+		}
+		n++
+		// classification of branch conditions
+		fromField := func(v ssa.Value, pred func(t types.Type) bool) bool {
+			seen := map[ssa.Value]bool{}
+			var rec func(v ssa.Value) bool
+			rec = func(v ssa.Value) bool {
+				if seen[v] {
+					return false
+				}
+				seen[v] = true
+				switch x := v.(type) {
+				case *ssa.FieldAddr:
+					return pred(x.Type().(*types.Pointer).Elem()) || rec(x.X)
+				case *ssa.Field:
+					return pred(x.Type()) || rec(x.X)
+				case *ssa.UnOp:
+					return rec(x.X)
+				case *ssa.Convert:
+					return rec(x.X)
+				}
+				return false
+			}
+			return rec(v)
+		}
+		isBoolField := func(v ssa.Value) bool {
+			return fromField(v, func(t types.Type) bool {
+				b, ok := t.Underlying().(*types.Basic)
+				return ok && b.Kind() == types.Bool
+			})
+		}
+		isHashParam := func(v ssa.Value) bool {
+			for _, pa := range f.Params[1:] {
+				if v == ssa.Value(pa) {
+					return true
+				}
+				if c, ok := v.(*ssa.Call); ok {
+					if b, ok := c.Call.Value.(*ssa.Builtin); ok && b.Name() == "len" && c.Call.Args[0] == ssa.Value(pa) {
+						return true
+					}
+				}
+			}
+			return false
+		}
+		isListElem := func(v ssa.Value) bool {
+			u, ok := v.(*ssa.UnOp)
+			if !ok {
+				return false
+			}
+			ia, ok := u.X.(*ssa.IndexAddr)
+			if !ok {
+				return false
+			}
+			// the list looked up in the same map
+			switch l := ia.X.(type) {
+			case *ssa.Lookup:
+				return l.X == upd.Map || sameFieldLoad(l.X, upd.Map)
+			case *ssa.Extract:
+				if lk, ok := l.Tuple.(*ssa.Lookup); ok {
+					return lk.X == upd.Map || sameFieldLoad(lk.X, upd.Map)
+				}
+			}
+			return false
+		}
+		isUint64Field := func(v ssa.Value) bool {
+			return fromField(v, func(t types.Type) bool {
+				b, ok := t.Underlying().(*types.Basic)
+				return ok && b.Kind() == types.Uint64
+			})
+		}
+		// allowed(cond, taken): taking this branch is a legitimate reason not to append
+		allowed := func(cond ssa.Value, taken bool) bool {
+			if isBoolField(cond) {
+				return taken
+			}
+			bo, ok := cond.(*ssa.BinOp)
+			if !ok {
+				return false
+			}
+			eq := bo.Op == token.EQL
+			if bo.Op != token.EQL && bo.Op != token.NEQ {
+				return false
+			}
+			for _, pr := range [][2]ssa.Value{{bo.X, bo.Y}, {bo.Y, bo.X}} {
+				a, b := pr[0], pr[1]
+				if isHashParam(a) {
+					if c, ok := b.(*ssa.Const); ok && (c.IsNil() || (c.Value != nil && c.Value.ExactString() == "0")) {
+						return taken == eq
+					}
+				}
+				if isListElem(a) && isUint64Field(b) {
+					return taken == eq
+				}
+			}
+			return false
+		}
+		bad := token.NoPos
+		var path []bool
+		onPath := map[*ssa.BasicBlock]bool{}
+		var dfs func(b *ssa.BasicBlock, ok bool)
+		dfs = func(b *ssa.BasicBlock, ok bool) {
+			if bad.IsValid() || onPath[b] || b == upd.Block() {
+				return
+			}
+			onPath[b] = true
+			defer delete(onPath, b)
+			last := b.Instrs[len(b.Instrs)-1]
+			switch t := last.(type) {
+			case *ssa.Return:
+				if !ok {
+					bad = t.Pos()
+					if !bad.IsValid() {
+						bad = f.Pos()
+					}
+				}
+			case *ssa.If:
+				dfs(b.Succs[0], ok || allowed(t.Cond, true))
+				dfs(b.Succs[1], ok || allowed(t.Cond, false))
+			default:
+				for _, su := range b.Succs {
+					dfs(su, ok)
+				}
+			}
+		}
+		_ = path
+		dfs(f.Blocks[0], false)
+		key := funcKey(f) + " / every ref block of an object is recorded"
+		if bad.IsValid() {
+			r.violate("OBJ-INDEX-EVERY-BLOCK", key, p.pos(bad), "the writer can skip recording the current ref block under an object id for a reason other than 'indexing is off', 'no id' or 'the id's list already ends with this block' (for instance because the id equals the previous one): a block that holds refs to the object is missing from its position list and RefsFor does not find them", nil)
+		} else {
+			r.ok("OBJ-INDEX-EVERY-BLOCK", key, "every return that bypasses the map update is justified by one of the three conditions")
+		}
+	}
+	r.floor("OBJ-INDEX-EVERY-BLOCK", n, 1, "writer functions that update the object id -> positions map")
+}
+
+// sameFieldLoad: both values are loads of the same field of the same object.
+func sameFieldLoad(a, b ssa.Value) bool {
+	ua, ok1 := a.(*ssa.UnOp)
+	ub, ok2 := b.(*ssa.UnOp)
+	if !ok1 || !ok2 {
+		return false
+	}
+	return sameAddr(ua.X, ub.X)
 }
